@@ -60,15 +60,27 @@ def with_options(gen_inner, quick, thorough):
 
 
 # ------------------------------------------------------------------ derivative
+NARROW = {"int8": [100, -100, 127, 3], "uint8": [200, 255, 1], "int16": [30000, -20000, 5], "uint16": [60000, 7], "int32": [2 ** 30, -2 ** 30, 9],
+          "bool": [True, True, False], "float32": [3.0e38, 0.5, -2.0], "float16": [60000.0, 0.5]}
+
+
 def gen_derivative(rng):
     k = rng.choice([1, 1, 2, 3])
+    if rng.random() < 0.2:
+        # coefficients stored in a narrow dtype, with values whose product with an exponent does not fit that dtype: the
+        # derivative is the formal one all the same (numpy promotes exponent*coefficient; nothing may cast it back)
+        dt = rng.choice(sorted(NARROW))
+        spec = rand_poly(rng, shape=rng.choice(SHAPES), dtype=dt, pool=NARROW[dt], exps=[0, 1, 2, 3, 3])
+        spec["retain"] = rng.choice([True, None])
+        return {"p": spec, "vars": [{"by": rng.choice(BY), "i": rng.randint(0, 2)} for _ in range(rng.choice([1, 2]))]}
     return {"p": rand_input_poly(rng), "vars": [{"by": rng.choice(BY), "i": rng.randint(0, 2)} for _ in range(k)]}
 
 
 @check("C06", "derivative.formal", with_options(gen_derivative, 40, 300),
        functions=("numpoly.derivative", "numpoly.align_polynomials", "numpoly.clean_attributes", "numpoly.remove_redundant_names"),
        note="bounded: all 16 settings of retain_names/retain_coefficients/sort_graded/sort_reverse x polynomials with <=3 terms, "
-            "<=3 indeterminates (unused names and all-constant arrays included), exponents<=3, 8 shapes up to (2,1,2), int64/float64; "
+            "<=3 indeterminates (unused names and all-constant arrays included), exponents<=3, 8 shapes up to (2,1,2), int64/float64, and a fifth "
+            "of the inputs in int8/uint8/int16/uint16/int32/bool/float16/float32 with coefficients at the edge of the dtype's range; "
             "1-3 differentiation variables per call, each given as name, index, poly.indeterminants[i], numpoly.symbols(name) or "
             "numpoly.variable(k+1)[k]; result well-formed and equal to the successive formal partials of the oracle")
 def derivative_formal(inp):
